@@ -590,4 +590,80 @@ theorem trace_stops (c : Cfg) (r : Result) (h : runForever c = some r) (hb : c.c
   exact stopSblocks_saes ..
 
 
+
+/-- two block lists that differ at most in `persistent` / `restored` (whether a block takes part in
+    the "save the state" step of run_forever and whether the storage holds an entry of it) -/
+inductive SameButPersistence : List Blk → List Blk → Prop
+  | nil : SameButPersistence [] []
+  | cons {b b' : Blk} {l l' : List Blk} :
+      b' = { b with persistent := b'.persistent, restored := b'.restored } →
+      SameButPersistence l l' → SameButPersistence (b :: l) (b' :: l')
+
+/-- two block lists that agree in what decides which blocks are started and to which clean-up
+    set a block belongs -/
+inductive SameStartStop : List Blk → List Blk → Prop
+  | nil : SameStartStop [] []
+  | cons {b b' : Blk} {l l' : List Blk} :
+      b'.fStart = b.fStart → b'.asyncStop = b.asyncStop →
+      SameStartStop l l' → SameStartStop (b :: l) (b' :: l')
+
+theorem SameButCleanup.toStartStop {l l' : List Blk} (h : SameButCleanup l l') : SameStartStop l l' := by
+  induction h with
+  | nil => exact .nil
+  | @cons b b' l₁ l₂ hbb _ ih => exact .cons (by rw [hbb]) (by rw [hbb]; rfl) ih
+
+theorem SameButPersistence.toStartStop {l l' : List Blk} (h : SameButPersistence l l') :
+    SameStartStop l l' := by
+  induction h with
+  | nil => exact .nil
+  | @cons b b' l₁ l₂ hbb _ ih => exact .cons (by rw [hbb]) (by rw [hbb]; rfl) ih
+
+theorem SameStartStop.startLoop {l l' : List Blk} (h : SameStartStop l l') (i : Nat) :
+    startLoop i l' = startLoop i l := by
+  induction h generalizing i with
+  | nil => rfl
+  | @cons b b' l₁ l₂ hs _ _ ih =>
+    unfold Edzed.Lifecycle.startLoop
+    simp only [hs, ih]
+
+theorem SameStartStop.asyncStop {l l' : List Blk} (h : SameStartStop l l') (k : Nat) :
+    (blk l' k).asyncStop = (blk l k).asyncStop := by
+  unfold blk
+  induction h generalizing k with
+  | nil => rfl
+  | @cons b b' l₁ l₂ _ ha _ ih =>
+    cases k with
+    | zero => simpa using ha
+    | succ k => simpa using ih k
+
+/-- configurations that agree in the start() faults and in the classification of the blocks
+    admit the same stop orders and give the same stop() calls, stop_async begins and started set -/
+theorem same_partition_same_stops (c c' : Cfg) (r : Result) (h : runForever c = some r)
+    (hb : c.cause.before = false) (hb' : c'.cause.before = false) (hoa : c'.oa = c.oa) (hos : c'.os = c.os)
+    (hbl : SameStartStop c.blocks c'.blocks) :
+    ∃ r', runForever c' = some r' ∧ stops r'.trace = stops r.trace ∧ sabs r'.trace = sabs r.trace ∧
+      r'.started = r.started := by
+  have sp := run_spec c r h hb
+  have hblk := hbl.asyncStop
+  have hst : (plan c').started = (plan c).started := by
+    rw [plan_started, plan_started, hbl.startLoop 0]
+  have hA : setA c'.blocks (plan c').started = setA c.blocks (plan c).started := by
+    simp only [setA, hst, hblk]
+  have hS : setS c'.blocks (plan c').started = setS c.blocks (plan c).started := by
+    simp only [setS, hst, hblk]
+  have hfin : ∃ r', finish c' (plan c') = some r' := by
+    unfold finish
+    simp only [consumePending, Bool.false_and, Bool.false_eq_true, if_false]
+    have : (permOf c'.oa (setA c'.blocks (plan c').started) && permOf c'.os (setS c'.blocks (plan c').started)) = true := by
+      simp only [permOf, Bool.and_eq_true, List.isPerm_iff, hA, hS, hoa, hos]
+      exact ⟨sp.permA, sp.permS⟩
+    simp [this]
+  obtain ⟨r', hr'⟩ := hfin
+  have hrun : runForever c' = some r' := by
+    unfold runForever; simp only [hb', Bool.false_eq_true, if_false]; exact hr'
+  obtain ⟨h1, h2, h3, _⟩ := trace_stops c r h hb
+  obtain ⟨h1', h2', h3', _⟩ := trace_stops c' r' hrun hb'
+  refine ⟨r', hrun, by rw [h1, h1', hoa, hos], by rw [h3, h3', hoa], ?_⟩
+  rw [(run_spec c' r' hrun hb').started, sp.started, hst]
+
 end Edzed.Lifecycle
